@@ -100,18 +100,18 @@ def main(tier, seed):
     from opfython.models.semi_supervised import SemiSupervisedOPF
     from opfython.models.knn_supervised import KNNSupervisedOPF
     from opfython.models.unsupervised import UnsupervisedOPF
-    nm = 24 if tier == "quick" else 2000
+    nm = 40 if tier == "quick" else 2500
     mods = dict(runs=0, readonly=0)
     for i in range(nm):
-        kind = ("sup", "semi", "knn", "unsup")[i % 4]
+        kind = ("sup", "semi", "knn", "unsup", "prune")[i % 5]
         metric = rng.choice(["chi_squared", "canberra", "squared", "bray_curtis", "log_squared_euclidean", "euclidean", "jaccard", "soergel"])
-        n, dim = rng.randint(6, 10), rng.randint(1, 3)
+        n, dim = rng.randint(6, 10) + (4 if kind == "prune" else 0), rng.randint(1, 3)
         X = np.array([[rng.choice([0.0, rng.uniform(0.1, 5), float(rng.randint(0, 3))]) for _ in range(dim)] for _ in range(n)])
-        base = (i // 4) % 2          # half of the runs use one-based labels
+        base = (i // 5) % 2          # half of the runs use one-based labels
         Y = np.array([base + j % 2 for j in range(n)])
         Xq = np.array([[rng.choice([0.0, rng.uniform(0.1, 5)]) for _ in range(dim)] for _ in range(4)])
         Yq = np.array([base, base + 1, base, base + 1])
-        readonly = (i % 8) >= 4
+        readonly = (i % 10) >= 5
         arrays = dict(X=X, Y=Y, Xq=Xq, Yq=Yq)
         before = {k: v.tobytes() for k, v in arrays.items()}
         if readonly:
@@ -126,6 +126,9 @@ def main(tier, seed):
                 m = SemiSupervisedOPF(distance=metric); m.fit(X, Y, Xq); p = m.predict(Xq)
             elif kind == "knn":
                 m = KNNSupervisedOPF(max_k=2, distance=metric); m.fit(X, Y, Xq, Yq); p = m.predict(Xq)
+            elif kind == "prune":
+                # pruning drops training samples; it must build the reduced set afresh, not compact the caller's arrays
+                m = SupervisedOPF(distance=metric); m.prune(X, Y, Xq, Yq, n_iterations=2); p = m.predict(Xq)
             else:
                 m = UnsupervisedOPF(min_k=1, max_k=2, distance=metric); m.fit(X, Y); p = m.predict(Xq)
             st = [(float(nd.cost), int(nd.pred), int(nd.predicted_label), int(nd.cluster_label)) for nd in m.subgraph.nodes]
@@ -142,6 +145,10 @@ def main(tier, seed):
             continue
         except ZeroDivisionError:
             continue
+        except IndexError:
+            if kind != "prune":
+                raise
+            continue     # pruning left a single class: training cannot find prototypes (outside C07)
         mods["runs"] += 1
         rep.count_case(("model", kind, metric, before["X"]), True)
         after = {k: v.tobytes() for k, v in arrays.items()}
@@ -162,9 +169,9 @@ def main(tier, seed):
     rep.corr["model_runs"] = dict(cases=mods["runs"], distribution=mods)
     rep.extra["oracle_violations"] = nviol
     rep.samples = [dict(stream="DISTANCES[name](x, y) on arrays containing exact zeros, twice, interleaved with other evaluations"),
-                   dict(stream="fit+predict of the four models on arrays with zeros; every other batch handed over read-only")]
+                   dict(stream="fit+predict of the four models and SupervisedOPF.prune on arrays with zeros; every other batch handed over read-only")]
     rep.rule = ("(1) all 47 metrics x vectors of length 1-6 containing exact zeros (domain permitting): byte comparison of the caller's arrays, value "
-                "re-evaluation after unrelated calls; (2) four models x eight metrics (six decorated), byte comparison and read-only stream, "
+                "re-evaluation after unrelated calls; (2) four models and prune x eight metrics (six decorated), byte comparison and read-only stream, "
                 "fresh-model determinism; every (metric, argument bytes) pair / model run is one distinct case")
     rep.assumptions = ["the alias classification and the list of mutating numpy/list methods in translator/stores.py are trusted",
                        "metric bodies are store-free: the fail-closed metric translator accepts expressions only",
